@@ -376,6 +376,15 @@ def positions_for(shape, quick, seed):
     return sorted(set([rot[0], rot[step], rot[2 * step]]))
 
 
+ANCHORS = [2.5, 11.0, 0.3, 150.0]
+
+
+def quick_targets(seed):
+    t = POOL[seed % len(POOL)]
+    a = [v for v in ANCHORS[seed % len(ANCHORS):] + ANCHORS[:seed % len(ANCHORS)] if v != t][0]
+    return [t, a]
+
+
 def work(chunk, quick=True, seed=0, targets=None, rotations=None):
     acc = fw.Acc()
     for fname, method, n, order in chunk:
@@ -391,7 +400,9 @@ def work(chunk, quick=True, seed=0, targets=None, rotations=None):
 
 def run(ctx):
     units = [(f, m, n, o) for f in FNAMES for (m, n, o) in configs()]
-    targets = ctx.rotate(POOL, 2)
+    # quick: one seed-rotated pool value plus one seed-rotated anchor (a value that leaves at least one real-step
+    # column only partly non-finite), so that every neighbour class is met for every seed
+    targets = POOL if not ctx.quick else quick_targets(ctx.seed)
     rotations = ctx.rotate(list(range(len(POOL))), 2)
     acc = ctx.pmap(work, units, chunk=1, quick=ctx.quick, seed=ctx.seed, targets=targets,
                    rotations=rotations)
@@ -426,7 +437,7 @@ def run(ctx):
             'partial-nan / finite) come from the documented step sequence and the test function, not from the '
             'library.' % (len(SHAPES), len(configs()),
                           'all positions' if not ctx.quick else 'all positions (3 seed-rotated ones for sizes > 6)',
-                          'the whole pool' if not ctx.quick else '2 seed-rotated pool values', len(rotations)))
+                          'the whole pool' if not ctx.quick else '2 pool values (one seed-rotated, one seed-rotated anchor)', len(rotations)))
     return fw.finish(ctx, acc, LEVEL, rule, exhaustive=True, required_cells=req,
                      assumptions=['numpy float +, -, *, /, sqrt are correctly rounded elementwise, so the test '
                                   'functions are elementwise bit for bit',
